@@ -70,6 +70,9 @@ func (r *renderer) val(v ssa.Value) string {
 	}
 	switch v := v.(type) {
 	case *ssa.Parameter:
+		if a, ok := uniqueArg(r, v); ok {
+			return a
+		}
 		return v.Name()
 	case *ssa.FreeVar:
 		return "free:" + v.Name()
@@ -162,6 +165,11 @@ func (r *renderer) val(v ssa.Value) string {
 	case *ssa.TypeAssert:
 		return r.val(v.X) + ".(" + typeShort(v.AssertedType) + ")"
 	case *ssa.Extract:
+		if c, ok := v.Tuple.(*ssa.Call); ok {
+			if x, ok := helperResult(r, &c.Call, v.Index); ok {
+				return x
+			}
+		}
 		return r.val(v.Tuple) + "#" + fmt.Sprint(v.Index)
 	case *ssa.MakeSlice:
 		return "make(" + typeShort(v.Type()) + "," + r.val(v.Len) + ")"
@@ -195,6 +203,11 @@ func (r *renderer) val(v ssa.Value) string {
 		}
 		return fmt.Sprintf("φ%s@%d", name, v.Block().Index)
 	case *ssa.Call:
+		if v.Call.Signature().Results().Len() == 1 {
+			if x, ok := helperResult(r, &v.Call, 0); ok {
+				return x
+			}
+		}
 		return r.call(&v.Call)
 	}
 	return fmt.Sprintf("%T:%s", v, v.Name())
